@@ -59,6 +59,8 @@ func checkC04(ctx *Ctx, r *Report) {
 	c04NilGuardedMembers(ctx, r, eng)
 	cfgNilEntries(ctx, r)
 	c04ConfigTypesValidated(ctx, r)
+	c04SharedNodes(ctx, r, g)
+	c04TemplateRecursion(ctx, r)
 }
 
 // ---------------------------------------------------------------------------
